@@ -629,7 +629,14 @@ impl RawAutomaton {
                 automaton.transitions.len(),
                 nb_states,
             );
-            if automaton.nothing_after_final() {
+            if automaton.nothing_after_final()
+                && !automaton.final_states.contains(&automaton.initial_state)
+            {
+                // The second condition excludes automata accepting exactly the empty word (a
+                // final initial state without successors): no transition points to their final
+                // state, hence there would be nothing to redirect and the link with the rest of
+                // the concatenation would be lost.
+                //
                 // In this branch, an optimisation can be done to save one state and one
                 // transition (redirect transitions pointing to the final states of `automaton`
                 // towards `concat_automaton.initial_state`).
